@@ -927,4 +927,17 @@ theorem holds_single {r : Req} {o : Resp} (h : holds r o = true) : singleDocumen
   simp only [List.all_append, List.all_cons, Bool.and_eq_true] at h
   exact h.1.2.1
 
+/-! ### the add endpoint -/
+
+theorem addParams_opts {q : List (String × QV)} {md : List (Nat × Nat)} {p : AddParams} (h : addParams q md = some p) :
+    ∃ o, fromQuery q md = some o ∧ p.opts = { o with update := none } := by
+  unfold addParams at h
+  split at h
+  · rename_i o _ _ _ _ _ _ _ _ _ ho _ _ _ _ _ _ _ _ _
+    split at h
+    · simp only [Option.some.injEq] at h
+      exact ⟨o, ho, by rw [← h]⟩
+    · simp at h
+  · simp at h
+
 end CV.C11
